@@ -269,8 +269,15 @@ def impl_call(d, be):
             if fn == "batched_outer":
                 return tenalg.batched_outer(list(a))
             if fn == "tensordot":
-                return tenalg.tensordot(a[0], a[1], modes=(list(o["modes"][0]), list(o["modes"][1])),
-                                        batched_modes=(list(o["batched"][0]), list(o["batched"][1])))
+                # "raw_modes"/"raw_batched": the int / negative / flat forms accepted by _validate_contraction_modes;
+                # o["modes"] / o["batched"] always hold the normalised explicit lists (what the model and the reference see)
+                modes = o["raw_modes"] if "raw_modes" in o else (list(o["modes"][0]), list(o["modes"][1]))
+                batched = o["raw_batched"] if "raw_batched" in o else (list(o["batched"][0]), list(o["batched"][1]))
+                if isinstance(modes, list):
+                    modes = tuple(list(x) if isinstance(x, list) else x for x in modes)
+                if isinstance(batched, list):
+                    batched = tuple(list(x) if isinstance(x, list) else x for x in batched)
+                return tenalg.tensordot(a[0], a[1], modes=modes, batched_modes=batched)
             if fn == "mttkrp":
                 T, fs, w = split_arrays(dd)
                 if be == "memory":
@@ -453,6 +460,12 @@ def gen_descriptors(tier, rng):
     yield D("mode_dot", [g.arr((2, 3)), g.arr((2,))], valid=False, mode=1, transpose=False)
     yield D("mode_dot", [g.arr((2, 3)), g.arr((2, 3, 1))], valid=False, mode=1, transpose=False)
     yield D("mode_dot", [g.arr((2, 3)), g.arr((2, 3))], valid=False, mode=2, transpose=False)
+    # size-1 mismatches: einsum / broadcasting would accept them silently if a shape check were missing
+    yield D("mode_dot", [g.arr((2, 1)), g.arr((2, 3))], valid=False, mode=1, transpose=False)
+    yield D("mode_dot", [g.arr((2, 3)), g.arr((2, 1))], valid=False, mode=1, transpose=False)
+    yield D("mode_dot", [g.arr((2, 1)), g.arr((3,))], valid=False, mode=1, transpose=False)
+    yield D("mode_dot", [g.arr((2, 3)), g.arr((1,))], valid=False, mode=1, transpose=False)
+    yield D("mode_dot", [g.arr((3, 2)), g.arr((1, 2))], valid=False, mode=0, transpose=True)
 
     # ---- multi_mode_dot
     mm_shapes = [s for s in all_shapes if len(s) <= 3 or not quick or rng.random() < 0.35]
@@ -508,6 +521,8 @@ def gen_descriptors(tier, rng):
                 yield D("khatri_rao", arrays, n=n, weights=hasw, mask=hasm, skip=skip)
     yield D("khatri_rao", [g.arr((2, 2)), g.arr((3, 3))], valid=False, n=2, weights=False, mask=False, skip=None)
     yield D("khatri_rao", [g.arr((2, 2)), g.arr((3, 2)), g.arr((2, 3))], valid=False, n=3, weights=False, mask=False, skip=0)
+    yield D("khatri_rao", [g.arr((2, 1)), g.arr((3, 2))], valid=False, n=2, weights=False, mask=False, skip=None)
+    yield D("khatri_rao", [g.arr((2, 2)), g.arr((3, 1)), g.arr((2, 2))], valid=False, n=3, weights=False, mask=False, skip=None)
 
     # ---- kronecker
     for n in (1, 2, 3, 4):
@@ -534,6 +549,10 @@ def gen_descriptors(tier, rng):
                 yield D("inner", [g.arr(s, cplx), g.arr(sb, cplx)], n_modes=n)
     yield D("inner", [g.arr((2, 3)), g.arr((3, 2))], valid=False, n_modes=None)
     yield D("inner", [g.arr((2, 3)), g.arr((2, 2))], valid=False, n_modes=1)
+    yield D("inner", [g.arr((2, 1)), g.arr((3, 2))], valid=False, n_modes=1)
+    yield D("inner", [g.arr((2, 3)), g.arr((1, 2))], valid=False, n_modes=1)
+    yield D("inner", [g.arr((2, 1)), g.arr((2, 3))], valid=False, n_modes=None)
+    yield D("inner", [g.arr((3, 1, 2)), g.arr((3, 2, 2))], valid=False, n_modes=2)
     # n_modes = 0 is the outer product
     for s, sb in (((2, 3), (2,)), ((2,), (3, 2)), ((1, 2), (3,)), ((3,), (2,))):
         yield D("inner", [g.arr(s), g.arr(sb)], n_modes=0)
@@ -554,6 +573,9 @@ def gen_descriptors(tier, rng):
         if _prod([_prod(t.shape[1:]) for t in ts]) * b <= 216:
             yield D("batched_outer", ts)
     yield D("batched_outer", [g.arr((2, 2)), g.arr((3, 2))], valid=False)
+    yield D("batched_outer", [g.arr((1, 2)), g.arr((3, 2))], valid=False)
+    yield D("batched_outer", [g.arr((3, 2)), g.arr((1,))], valid=False)
+    yield D("batched_outer", [g.arr((2, 2)), g.arr((2,)), g.arr((1, 3))], valid=False)
 
     # ---- tensordot: all (contraction, batch) selections up to two modes each with every pairing order
     td_shapes = [s for s in shapes([2, 3], dims)] if not quick else [tuple(rng.choice(dims) for _ in range(rng.choice([2, 3, 3]))) for _ in range(36)]
@@ -579,6 +601,53 @@ def gen_descriptors(tier, rng):
     yield D("tensordot", [g.arr((2, 3)), g.arr((2, 3))], valid=False, modes=[[0], [1]], batched=[[], []])
     yield D("tensordot", [g.arr((2, 3)), g.arr((2, 3))], valid=False, modes=[[0], [0]], batched=[[1], []])
     yield D("tensordot", [g.arr((2, 3)), g.arr((3, 3))], valid=False, modes=[[1], [0]], batched=[[0], [1]])
+    yield D("tensordot", [g.arr((1, 3)), g.arr((3, 3))], valid=False, modes=[[1], [0]], batched=[[0], [1]])
+    yield D("tensordot", [g.arr((3, 3)), g.arr((3, 1))], valid=False, modes=[[1], [0]], batched=[[0], [1]])
+    yield D("tensordot", [g.arr((2, 1)), g.arr((3, 2))], valid=False, modes=[[1], [0]], batched=[[], []])
+    yield D("tensordot", [g.arr((2, 3)), g.arr((1, 2))], valid=False, modes=[[1], [0]], batched=[[0], [1]])
+    # the int / negative / flat argument forms of tenalg_utils._validate_contraction_modes (normalised lists go to model and reference)
+    for _ in range(24 if quick else 120):
+        na, nb_ = rng.randint(1, 3), rng.randint(1, 3)
+        form = rng.choice(["int_modes", "neg_modes", "int_batched", "flat_same", "scalar_pair"])
+        sa = [rng.choice(dims) for _ in range(na)]
+        cplx = rng.random() < 0.15
+        if form == "int_modes":          # modes=k: last k modes of tensor1 with the first k modes of tensor2
+            k = rng.randint(0, min(na, nb_))
+            sb = sa[na - k:] + [rng.choice(dims) for _ in range(nb_ - k)]
+            yield D("tensordot", [g.arr(tuple(sa), cplx), g.arr(tuple(sb), cplx)], modes=[list(range(na - k, na)), list(range(k))], batched=[[], []],
+                    raw_modes=k, raw_batched=())
+        elif form == "neg_modes":        # negative modes count from the end
+            i, j = rng.randrange(na), rng.randrange(nb_)
+            sb = [rng.choice(dims) for _ in range(nb_)]; sb[j] = sa[i]
+            yield D("tensordot", [g.arr(tuple(sa), cplx), g.arr(tuple(sb), cplx)], modes=[[i], [j]], batched=[[], []],
+                    raw_modes=[[i - na], [j - nb_]], raw_batched=())
+        elif form == "int_batched":      # batched_modes=b: mode b of both tensors
+            b = rng.randrange(min(na, nb_))
+            sb = [rng.choice(dims) for _ in range(nb_)]; sb[b] = sa[b]
+            free1 = [i for i in range(na) if i != b]; free2 = [j for j in range(nb_) if j != b]
+            if free1 and free2 and rng.random() < 0.6:
+                i, j = rng.choice(free1), rng.choice(free2)
+                sb[j] = sa[i]
+                yield D("tensordot", [g.arr(tuple(sa), cplx), g.arr(tuple(sb), cplx)], modes=[[i], [j]], batched=[[b], [b]],
+                        raw_modes=[[i], [j]], raw_batched=b)
+            else:
+                yield D("tensordot", [g.arr(tuple(sa), cplx), g.arr(tuple(sb), cplx)], modes=[[], []], batched=[[b], [b]],
+                        raw_modes=(), raw_batched=b)
+        elif form == "flat_same":        # modes=[i, j] (not a pair of lists): the same modes of both tensors
+            n = min(na, nb_)
+            sel = sorted(rng.sample(range(n), rng.randint(1, n)))
+            if len(sel) == 2:
+                continue                 # a 2-element flat list is read as the pair (modes1, modes2)
+            sb = [rng.choice(dims) for _ in range(nb_)]
+            for i in sel:
+                sb[i] = sa[i]
+            yield D("tensordot", [g.arr(tuple(sa), cplx), g.arr(tuple(sb), cplx)], modes=[sel, sel], batched=[[], []],
+                    raw_modes=list(sel), raw_batched=())
+        else:                            # modes=(i, j): a pair of scalars
+            i, j = rng.randrange(na), rng.randrange(nb_)
+            sb = [rng.choice(dims) for _ in range(nb_)]; sb[j] = sa[i]
+            yield D("tensordot", [g.arr(tuple(sa), cplx), g.arr(tuple(sb), cplx)], modes=[[i], [j]], batched=[[], []],
+                    raw_modes=[i, j], raw_batched=())
 
     # ---- MTTKRP: every shape x every mode x weights on/off (complex on a subset); three variants
     for s in all_shapes:
@@ -740,6 +809,9 @@ def run_shards_robust(cases, shard=SHARD):
 
 
 # ----------------------------------------------------------------------------- run
+TIMEOUTS = []
+
+
 def evaluate(d, chk=None):
     """run one descriptor under all its backends; returns [(backend, canonical output, predicate message)]"""
     res = []
@@ -747,7 +819,10 @@ def evaluate(d, chk=None):
     if st != "ok":
         return [("core", (st, v), f"sample_khatri_rao raised: {v}")]
     for be in backends_of(d):
-        out = canon(d, C.call_impl(impl_call(d, be)))
+        out = canon(d, C.call_impl(impl_call(d, be), timeout=60))
+        if out[0] == "crash" and out[1] == "timeout":
+            TIMEOUTS.append((d["fn"], be))      # overloaded machine: skipped, never a verdict
+            continue
         msg = predicate(d, be, out)
         if msg is None and out[0] == "ok" and d["fn"] != "sample_khatri_rao" and not is_intvalued(out[1]):
             msg = f"{d['fn']}[{be}]: non-integer output on integer operands"
@@ -774,6 +849,8 @@ def run(chk):
     descs += list(gen_descriptors(chk.tier, rng))
     for di, d in enumerate(descs):
         results = evaluate(d)
+        if not results:
+            continue
         cplx = any(np.iscomplexobj(a) for a in d["arrays"])
         nontrivial = any(np.asarray(a).size > 1 for a in d["arrays"])
         agree_ok = True
@@ -825,6 +902,7 @@ def run(chk):
         chk.notes.append(f"{len(skipped_shards)} correspondence shard(s) of {SHARD} cases were killed by the OS / timed out three times "
                          f"(machine out of memory or overloaded) and are counted as skipped, not as disagreements: {skipped_shards}")
     chk.cov["shards_skipped_for_resources"] = len(skipped_shards)
+    chk.cov["implementation_calls_skipped_for_timeout"] = len(TIMEOUTS)
     chk.checker_cmds.append("coqc (vm_compute) on generated build/cases/C02/*.v: Corr.C02.failing")
     chk.cov["traces_validated_against_impl"] = n_eval
     chk.cov["exhaustive"] = False
@@ -842,7 +920,7 @@ def run(chk):
         chk.disagreement("corr:C02 (Model/Tenalg.v vs tensorly/tenalg)", describe(d, be))
     chk.assumptions = ["np.dot / np.kron / np.einsum / broadcasting multiply / reshape / transpose behave as modelled at index level in Model/Tenalg.v and Base/Tensor.v (checked on this run's cases)",
                        "floating-point rounding is outside the model; integer-valued operands keep every partial sum far below 2^53 so the comparison is exact",
-                       "size-0 modes, negative modes, repeated modes with vector operands and the integer form of tensordot's `modes` are outside the model"]
+                       "size-0 modes, negative modes of mode_dot, repeated modes with vector operands and khatri_rao of 1-D operands are outside the model; the int / negative / flat forms of tensordot's modes and batched_modes are normalised by the harness (explicit non-negative lists go to the model), so tenalg_utils._validate_contraction_modes is covered by the comparison of results, not modelled"]
     chk.trusted = ["explicit-loop NumPy reference formulas in harness/props/C02.py (spec-side transcription used by the Python predicate)",
                    "higher_order_moment is compared as n_samples * moment (the division by n_samples is checked to be integer-exact to 1e-9)"]
     return chk.finish(CLASSIFIERS)
